@@ -249,17 +249,22 @@ class DBFSStore(Store):
                     f"Could not read metadata for key {key}: {_pprint_exception(e)}"
                 )
                 meta = None
+            full_commit = self._commit_type == CommitType.FULL
             if meta is not None:
-                redir_key = json.loads(meta)["redirection_key"]
+                redir = json.loads(meta)
+                redir_key = redir["redirection_key"]
+                # A record written by a links-only commit (or before copies were recorded) does not vouch for the copy
+                redir_copied = bool(redir.get("copied", False))
             else:
                 redir_key = None
-            if redir_key is None or redir_key != key:
+                redir_copied = False
+            if redir_key is None or redir_key != key or (full_commit and not redir_copied):
                 _logger.debug(
                     f"Path {dds_p} needs update (registered key {redir_key} != {key})"
                 )
                 blob_path = self._blob_path(key)
                 obj_path = self._physical_path(Path("./" + dds_p))
-                if self._commit_type == CommitType.FULL:
+                if full_commit:
                     _logger.debug(f"Copying {blob_path} -> {obj_path}")
                     # Optimization for the files saved with Spark: use spark to read and write.
                     # This can be much faster than using DBFS, which does a temporary copy on a local drive
@@ -280,7 +285,7 @@ class DBFSStore(Store):
                     _logger.debug(f"Skip copy for {obj_path} (links-only commit)")
                 _logger.debug(f"Linking new file {obj_path}")
                 try:
-                    meta = json.dumps({"redirection_key": key})
+                    meta = json.dumps({"redirection_key": key, "copied": full_commit})
                     self._put(redir_path, meta)
                 except Exception as e:
                     _logger.warning(
